@@ -112,7 +112,6 @@ func (u *ut0311) Broadcast(addr *net.UDPAddr, request []byte) ([][]byte, error) 
 func (u *ut0311) BroadcastTo(addr *net.UDPAddr, request []byte, callback func([]byte) bool) ([]byte, error) {
 	u.debugf(fmt.Sprintf(" ... request\n%s\n", codec.Dump(request, " ...          ")), nil)
 
-	deadline := time.Now().Add(u.timeout)
 	bind := net.UDPAddrFromAddrPort(u.bindAddr)
 
 	if bind == nil {
@@ -127,6 +126,8 @@ func (u *ut0311) BroadcastTo(addr *net.UDPAddr, request []byte, callback func([]
 		guard.Lock()
 		defer guard.Unlock()
 	}
+
+	deadline := time.Now().Add(u.timeout)
 
 	if connection, err := net.ListenUDP("udp", bind); err != nil {
 		return nil, fmt.Errorf("error creating UDP socket (%v)", err)
@@ -174,7 +175,6 @@ func (u *ut0311) BroadcastTo(addr *net.UDPAddr, request []byte, callback func([]
  * returns a byte slice with the reply.
  */
 func (u *ut0311) SendUDP(addr *net.UDPAddr, request []byte) ([]byte, error) {
-	deadline := time.Now().Add(u.timeout)
 	address := fmt.Sprintf("%v", addr)
 	bind := net.UDPAddrFromAddrPort(u.bindAddr)
 
@@ -190,6 +190,8 @@ func (u *ut0311) SendUDP(addr *net.UDPAddr, request []byte) ([]byte, error) {
 		guard.Lock()
 		defer guard.Unlock()
 	}
+
+	deadline := time.Now().Add(u.timeout)
 
 	dialer := net.Dialer{
 		Deadline:  deadline,
@@ -253,7 +255,6 @@ func (u *ut0311) SendUDP(addr *net.UDPAddr, request []byte) ([]byte, error) {
  * returns a byte slice with the reply.
  */
 func (u *ut0311) SendTCP(addr *net.TCPAddr, request []byte) ([]byte, error) {
-	deadline := time.Now().Add(u.timeout)
 	address := fmt.Sprintf("%v", addr)
 	bind := net.TCPAddrFromAddrPort(u.bindAddr)
 
@@ -269,6 +270,8 @@ func (u *ut0311) SendTCP(addr *net.TCPAddr, request []byte) ([]byte, error) {
 		guard.Lock()
 		defer guard.Unlock()
 	}
+
+	deadline := time.Now().Add(u.timeout)
 
 	dialer := net.Dialer{
 		Deadline:  deadline,
